@@ -37,12 +37,12 @@ theorem fixedDist_size : fixedDistLens.size = 32 := by
   unfold fixedDistLens; simp
 
 /-- What `doStaticHuffman` (first block) does on a fixed block that the spec decodes to `T`. -/
-structure FixedSim (c : Cutter) (pE : Nat) (T : Bytes) (r : Cutter × Option Err) : Prop where
+structure FixedSim (c : Cutter) (out : Bytes) (pE : Nat) (T : Bytes) (r : Cutter × Option Err) : Prop where
   size : r.1.bits.bytes.size = c.bits.bytes.size
   max : r.1.maxEncodedLen = c.maxEncodedLen
   nil : r.2 = none → r.1.bits.bytes = c.bits.bytes ∧ r.1.bits.pos = pE ∧ r.1.decodedLen = (T.size : Int) ∧
       pE ≤ 8 * c.maxEncodedLen ∧ r.1.bits.Inv
-  prog : r.2 = some .someProgress → ∃ q o, Reach fixedLit fixedDist 7 5 c.bits.bytes c.bits.pos #[] q o ∧
+  prog : r.2 = some .someProgress → ∃ q o, Reach fixedLit fixedDist 7 5 c.bits.bytes c.bits.pos out q o ∧
       c.bits.pos < q ∧ r.1.decodedLen = (o.size : Int) ∧ q + 7 ≤ 8 * c.maxEncodedLen ∧
       8 * r.1.bits.index - r.1.bits.nBits = q + 7 ∧ r.1.bits.nBits ≤ 8 * r.1.bits.index ∧
       r.1.bits.nBits ≤ 8 ∧ (∃ h : Huffman, h.Good fixedLitLens) ∧
@@ -50,11 +50,12 @@ structure FixedSim (c : Cutter) (pE : Nat) (T : Bytes) (r : Cutter × Option Err
         if q ≤ i ∧ i < q + 7 then ((rfcCode fixedLitLens 256).testBit (7 - 1 - (i - q))).toNat
         else bitAt c.bits.bytes i
   keep : r.2 = some .noProgress ∨ r.2 = some .replaceWithSingleBlock → r.1.bits.bytes = c.bits.bytes
+  keepD : r.2 = some .noProgress → r.1.decodedLen = c.decodedLen
 
-theorem doStaticHuffman_sim (c : Cutter) (hc : c.OK) (fuelS pE : Nat) (T : Bytes)
-    (hspec : huffBlock fixedLit fixedDist 7 5 c.bits.bytes none 0 fuelS c.bits.pos #[] = .next pE T)
-    (hcd : c.decodedLen = 0) (hT : (T.size : Int) < 2147483648) (isFirst : Bool) :
-    FixedSim c pE T (c.doStaticHuffman isFirst) := by
+theorem doStaticHuffman_sim (c : Cutter) (hc : c.OK) (fuelS pE : Nat) (out T : Bytes)
+    (hspec : huffBlock fixedLit fixedDist 7 5 c.bits.bytes none 0 fuelS c.bits.pos out = .next pE T)
+    (hcd : c.decodedLen = (out.size : Int)) (hT : (T.size : Int) < 2147483648) (isFirst : Bool) :
+    FixedSim c out pE T (c.doStaticHuffman isFirst) := by
   obtain ⟨k1, k2, _⟩ := doStaticHuffman_ok c isFirst
   simp only [Cutter.doStaticHuffman] at k1 k2 ⊢
   rw [static_ll, static_dl] at k1 k2 ⊢
@@ -66,7 +67,7 @@ theorem doStaticHuffman_sim (c : Cutter) (hc : c.OK) (fuelS pE : Nat) (T : Bytes
     rw [h1] at k1 k2
     simp only [] at k1 k2 ⊢
     rcases construct_err _ _ _ h1 with rfl | rfl <;>
-      exact ⟨rfl, rfl, by intro h; simp at h, by intro h; simp at h, by intro h; rcases h with h | h <;> simp at h⟩
+      exact ⟨rfl, rfl, by intro h; simp at h, by intro h; simp at h, by intro h; rcases h with h | h <;> simp at h, by intro h; simp at h⟩
   | ok p =>
     obtain ⟨lh, ecb, ecn⟩ := p
     rw [h1] at k1 k2
@@ -85,7 +86,7 @@ theorem doStaticHuffman_sim (c : Cutter) (hc : c.OK) (fuelS pE : Nat) (T : Bytes
       rw [h2] at k1 k2
       simp only [] at k1 k2 ⊢
       rcases construct_err _ _ _ h2 with rfl | rfl <;>
-        exact ⟨rfl, rfl, by intro h; simp at h, by intro h; simp at h, by intro h; rcases h with h | h <;> simp at h⟩
+        exact ⟨rfl, rfl, by intro h; simp at h, by intro h; simp at h, by intro h; rcases h with h | h <;> simp at h, by intro h; simp at h⟩
     | ok p2 =>
       obtain ⟨dh, _, _⟩ := p2
       rw [h2] at k1 k2
@@ -96,7 +97,7 @@ theorem doStaticHuffman_sim (c : Cutter) (hc : c.OK) (fuelS pE : Nat) (T : Bytes
       split
       · rename_i hidx
         simp only [hidx, if_true] at k1 k2
-        exact ⟨rfl, rfl, by intro h; simp at h, by intro h; simp at h, fun _ => rfl⟩
+        exact ⟨rfl, rfl, by intro h; simp at h, by intro h; simp at h, fun _ => rfl, fun _ => rfl⟩
       · rename_i hidx
         simp only [hidx, if_false] at k1 k2
         have hc3 : (⟨c.bits.unread, c.maxEncodedLen, c.decodedLen, rfcCode fixedLitLens 256, 7, lh, dh⟩ : Cutter).OK :=
@@ -105,12 +106,12 @@ theorem doStaticHuffman_sim (c : Cutter) (hc : c.OK) (fuelS pE : Nat) (T : Bytes
             fixedLitLens fixedDistLens fixedLit fixedDist :=
           ⟨hgl, hgd, fixedLit_nz, fixedDist_nz, fixedLit_some, fixedDist_some, by rw [fixedLit_256.1]; omega,
             by rw [fixedDist_size]; omega⟩
-        have hsim := huffTail_sim _ hc3 fixedLitLens fixedDistLens fixedLit fixedDist ctx 7 5 fuelS pE T
-          (by show huffBlock fixedLit fixedDist 7 5 c.bits.unread.bytes none 0 fuelS c.bits.unread.pos #[] = .next pE T
+        have hsim := huffTail_sim _ hc3 fixedLitLens fixedDistLens fixedLit fixedDist ctx 7 5 fuelS pE out T
+          (by show huffBlock fixedLit fixedDist 7 5 c.bits.unread.bytes none 0 fuelS c.bits.unread.pos out = .next pE T
               rw [hup]; exact hspec)
-          hcd hT (by simp) isFirst
-        obtain ⟨s1, s2, s3, s4, s5, _⟩ := hsim
-        refine ⟨k2, k1, s3, ?_, s5⟩
+          hcd hT (by simp) (by show 7 = fixedLitLens.getD 256 0; rw [fixedLit_256.2]) isFirst
+        obtain ⟨s1, s2, s3, s4, s5, s6, _⟩ := hsim
+        refine ⟨k2, k1, s3, ?_, s5, s6⟩
         intro hp
         obtain ⟨q, o, a1, a2, a3, a4, a5, a6, a7, a8⟩ := s4 hp
         exact ⟨q, o, by rw [← hup]; exact a1, by rw [← hup]; exact a2, a3, a4, a5, a6, a7, ⟨lh, hgl⟩, a8⟩
